@@ -20,13 +20,97 @@ class Path:
         self.conds = []      # (cond node, taken)
         self.events = []     # statement nodes (simple statements, loops as ('loop', node))
         self.returned = False
+        self.env = {}        # local id -> value expression assigned on this path (locals that only select among values: `p = A;` in one arm, `p = B;` in the other)
 
     def copy(self):
         p = Path()
         p.conds = list(self.conds)
         p.events = list(self.events)
         p.returned = self.returned
+        p.env = dict(self.env)
         return p
+
+
+def _simple_value(n):
+    """a value that can be copied to its uses: constants, references to globals / parameters / members, address-of and arithmetic over those; no calls"""
+    for x in walk(n):
+        if x['k'] in ('Call', 'Assign', 'CAssign', 'New', 'Throw', 'Lambda', 'OtherExpr', 'Cond'):
+            return False
+        if x['k'] == 'Un' and ('++' in x.get('op', '') or '--' in x.get('op', '') or x.get('op') == '*'):
+            return False
+    return True
+
+
+def propagate(p, s):
+    """statement s with the path's selected values substituted; updates p.env with the assignments s makes"""
+    if p.env:
+        ids = set(x.get('id') for x in walk(s) if x['k'] == 'Ref')
+        hit = [i for i in ids if i in p.env]
+        if hit:
+            top = strip_all(s)
+            skip = strip_all(top['l']) if top['k'] in ('Assign', 'CAssign') else None
+            for i in hit:
+                for x in list(walk(s)):
+                    if x['k'] == 'Ref' and x.get('id') == i and x is not skip:
+                        s = replace_node(s, x, p.env[i])
+    top = strip_all(s)
+    written = []
+    for x in walk(s):
+        if x['k'] in ('Assign', 'CAssign'):
+            written.append(strip_all(x['l']))
+        elif x['k'] == 'Un' and ('++' in x.get('op', '') or '--' in x.get('op', '')):
+            written.append(strip_all(x['e']))
+    for w in written:
+        wid = w.get('id') if w['k'] == 'Ref' else None
+        wshow = show(w)
+        for k_ in list(p.env):
+            if k_ == wid or any((y['k'] == 'Ref' and y.get('id') == wid and wid is not None) or (y['k'] in ('Mem', 'Idx') and show(y) == wshow) for y in walk(p.env[k_])):
+                del p.env[k_]
+    if top['k'] == 'Assign':
+        l = strip_all(top['l'])
+        if l['k'] == 'Ref' and l.get('id') is not None and l.get('dk') in ('Var', None) and 'q' not in l and _simple_value(top['r']) \
+                and not any(y['k'] == 'Ref' and y.get('id') == l['id'] for y in walk(top['r'])):
+            p.env[l['id']] = top['r']
+    return s
+
+
+def first_cond(s):
+    """outermost conditional expression (c ? a : b) with a non-constant condition inside statement s, or None"""
+    from astq import walk as _walk
+    for x in _walk(s):
+        if x['k'] == 'Cond' and val(x['c']) is None and val(x) is None:
+            return x
+        if x['k'] in ('Lambda',):
+            return None
+    return None
+
+
+def replace_node(s, target, repl):
+    """copy of s in which the node `target` (by identity) is replaced by `repl`; untouched sub-trees are shared"""
+    if s is target:
+        return repl
+    if not isinstance(s, dict):
+        return s
+    out = None
+    for key, v in s.items():
+        nv = v
+        if isinstance(v, dict):
+            nv = replace_node(v, target, repl)
+        elif isinstance(v, list):
+            nl = None
+            for i, x in enumerate(v):
+                nx = replace_node(x, target, repl) if isinstance(x, dict) else x
+                if nx is not x:
+                    if nl is None:
+                        nl = list(v)
+                    nl[i] = nx
+            if nl is not None:
+                nv = nl
+        if nv is not v:
+            if out is None:
+                out = dict(s)
+            out[key] = nv
+    return out if out is not None else s
 
 
 def paths(stmt, limit=4096, record_conds=False):
@@ -80,13 +164,33 @@ def paths(stmt, limit=4096, record_conds=False):
             return done + live
         if k == 'Null':
             return ps
+        # a conditional expression inside a plain statement is a branch like any other: x = c ? a : b  ==  if (c) x = a; else x = b;
+        cnd = first_cond(s)
+        if cnd is not None and split_depth[0] < 6:
+            split_depth[0] += 1
+            try:
+                out = []
+                for p in live:
+                    for arm, taken in (('t', True), ('f', False)):
+                        q = p.copy()
+                        q.conds.append((cnd['c'], taken))
+                        if record_conds:
+                            q.events.append(('cond', cnd['c'], taken))
+                        out += rec(replace_node(s, cnd, cnd[arm]), [q])
+                if len(out) > limit:
+                    raise AnalysisBroken('path explosion')
+                return done + out
+            finally:
+                split_depth[0] -= 1
         for p in live:
-            p.events.append(s)
-            top = strip_all(s)
+            s_p = propagate(p, s)
+            p.events.append(s_p)
+            top = strip_all(s_p)
             if top['k'] == 'Call' and top.get('name') == '__builtin_unreachable':
                 p.returned = True
                 p.unreachable = True
         return done + live
+    split_depth = [0]
     return rec(stmt, [Path()])
 
 
